@@ -52,6 +52,22 @@ SubstDollar(e, a) ==
     [] e.o \in {"par", "neg"} -> [o |-> e.o, a |-> SubstDollar(e.a, a)]
     [] OTHER -> [o |-> e.o, a |-> SubstDollar(e.a, a), b |-> SubstDollar(e.b, a)]
 
+
+\* does the expression mention `$` (directly)?
+RECURSIVE HasDollar(_)
+HasDollar(e) ==
+  CASE e.o = "$" -> TRUE
+    [] e.o \in {"n", "id"} -> FALSE
+    [] e.o \in {"par", "neg"} -> HasDollar(e.a)
+    [] OTHER -> HasDollar(e.a) \/ HasDollar(e.b)
+\* names mentioned by an expression
+RECURSIVE Names(_)
+Names(e) ==
+  CASE e.o = "id" -> {e.nm}
+    [] e.o \in {"n", "$"} -> {}
+    [] e.o \in {"par", "neg"} -> Names(e.a)
+    [] OTHER -> Names(e.a) \cup Names(e.b)
+
 \* does the expression mention a label (i.e. an address), directly or through EQU names?
 RECURSIVE UsesSym(_, _)
 UsesSym(e, env) ==
